@@ -311,6 +311,10 @@ def _ops_dict():
         if d.get('context') and 'properties' in d:
             c = [list(x) for x in d['context']]; i = r.randrange(len(c)); c[i] = c[i] + [len(d['properties'])]; d['context'] = c
         return d
+    def idx_huge(d, r):
+        if d.get('context'):
+            c = [list(x) for x in d['context']]; i = r.randrange(len(c)); c[i] = c[i] + [r.choice([2**40, 2**63, 10**30, 2**31 - 1, -2**40])]; d['context'] = c
+        return d
     def idx_shift_up(d, r):
         if d.get('context'):
             c = [list(x) for x in d['context']]; i = r.randrange(len(c)); c[i] = [x + 1 for x in c[i]]; d['context'] = c
